@@ -36,6 +36,9 @@ def main():
         if prop == "C07":
             import c07
             return c07.run(args)
+        if prop == "C18":
+            import c18
+            return c18.run(args)
         if prop == "C02":
             import c02
             return c02.run(args)
